@@ -57,7 +57,7 @@ type scenario struct {
 	WaitAt  int    `json:"wait_at"` // Wait() is called after this many submissions returned (>= len: after all)
 	Jitter  int64  `json:"jitter"`
 	Handler bool   `json:"handler"`
-	HMode   int    `json:"hmode"` // 0: the driver's handler; 1: none (the library reports the panic itself); 2: goz.LogPanic
+	HMode   int    `json:"hmode"` // 0: the driver's handler; 1: none (the library reports the panic itself); 2: goz.LogPanic; 3: set, then reset with nil
 	PKind   int    `json:"pkind"` // panic value: 0 the task number; 1 an error whose Error method panics; 2 a Stringer whose String method panics
 }
 
@@ -110,6 +110,9 @@ func runScenario(sc scenario, out func(map[string]interface{})) {
 		l.SetPanicHandler(func(v any) { r.log(map[string]interface{}{"ev": "handler", "v": panicID(v)}) })
 	case 2:
 		l.SetPanicHandler(goz.LogPanic(&nullLogger{}, 3))
+	case 3: // a handler configured and then reset to the built-in report
+		l.SetPanicHandler(func(v any) { r.log(map[string]interface{}{"ev": "handler", "v": panicID(v)}) })
+		l.SetPanicHandler(nil)
 	}
 	gates := make([]chan struct{}, k+eff+1)
 	for i := range gates {
@@ -517,7 +520,7 @@ func main() {
 	for s := 0; s < *n; s++ {
 		limits := []int{1, 2, 3, 1, 2, 4, 0, -1, -5}
 		sc := scenario{Limit: limits[rng.Intn(len(limits))], Jitter: rng.Int63(), Handler: true,
-			HMode: []int{0, 0, 0, 1, 2}[rng.Intn(5)], PKind: []int{0, 0, 1, 2}[rng.Intn(4)]}
+			HMode: []int{0, 0, 0, 1, 2, 3}[rng.Intn(6)], PKind: []int{0, 0, 1, 2}[rng.Intn(4)]}
 		k := 1 + rng.Intn(7)
 		for i := 0; i < k; i++ {
 			sc.Panics = append(sc.Panics, rng.Intn(3) == 0)
